@@ -21,10 +21,13 @@ impl Prop for C02 {
         "C02"
     }
     fn phases(&self, tier: Tier) -> Vec<PhaseSpec> {
-        vec![ph("class-forcing", N_FORCED), ph("random-trees", tier.pick(80_000, 5_000_000))]
+        vec![ph("class-forcing", N_FORCED), ph("random-trees", tier.pick(80_000, 5_000_000)), ph("python-facing operator methods of Dual2", tier.pick(20_000, 1_000_000))]
     }
     fn required_classes(&self, _tier: Tier) -> Vec<String> {
         let mut v = required_ad_classes();
+        for m in ["__add__", "__radd__", "__sub__", "__rsub__", "__mul__", "__rmul__", "__truediv__", "__rtruediv__", "__pow__", "__neg__", "__abs__", "__exp__", "__log__", "__norm_cdf__", "__norm_inv_cdf__"] {
+            v.push(format!("py:Dual2:{}", m));
+        }
         for s in ["route:Number-with-bare-floats", "route:Number-with-wrapped-floats", "gradient2:fast-path", "gradient2:lookup-path", "gradient2:absent-name", "downcast:Dual-from-Dual2", "cross-type:Dual-vs-Dual2", "leaf:nonzero-initial-dual2"] {
             v.push(s.to_string());
         }
@@ -46,6 +49,15 @@ impl Prop for C02 {
         ctx.extra.insert("max_band_use_of_16".into(), json!(crate::refad::max_band_use()));
     }
     fn run_case(&mut self, ctx: &mut Ctx, phase: usize, idx: u64, rng: &mut Rng) {
+        if phase == 2 {
+            super::pylayer::dual2_layer(ctx, "C02", rng);
+            if idx % 4 == 0 {
+                super::pylayer::dual_conversions(ctx, "C02", rng);
+            }
+            ctx.distinct(crate::util::hash_u64s(&[0x9e, idx]));
+            ctx.sample("python-layer", || json!({"methods": "as in C01, on Dual2", "operand_kinds": ["same kind", "float", "other derivative order (refused)"]}));
+            return;
+        }
         let noise_seed = rng.next();
         let mut g = Gen::new(rng, 2);
         let e = if phase == 0 {
